@@ -92,16 +92,16 @@ package nack
 //@   requires stream: streamInv(stream)
 //@   requires not_locked_by_caller: lockstate(stream.rtpBufferMutex) != -1
 //@   modifies *
-//@   ensures forwarded_at_most_once: calls("writer.Write") <= 1
+//@   # C01: every application packet reaches the next writer exactly once, whether or not it could be kept for retransmission
+//@   ensures forwarded_exactly_once: calls("writer.Write") == 1
 //@   ensures other_ssrc_passthrough: old(header.SSRC) != info.SSRC ==> calls("writer.Write") == 1 && calls("n.packetFactory.NewPacket") == 0 && calls("Add") == 0
 //@   ensures copied_once: old(header.SSRC) == info.SSRC ==> calls("n.packetFactory.NewPacket") == 1
 //@        && callarg("n.packetFactory.NewPacket", 0) == header && callarg("n.packetFactory.NewPacket", 1) == payload
 //@        && callarg("n.packetFactory.NewPacket", 2) == info.SSRCRetransmission && callarg("n.packetFactory.NewPacket", 3) == info.PayloadTypeRetransmission
-//@   ensures copy_failed: old(header.SSRC) == info.SSRC && callres("n.packetFactory.NewPacket", 1) != nil ==> calls("writer.Write") == 0 && calls("Add") == 0
-//@        && result0 == 0 && result1 == callres("n.packetFactory.NewPacket", 1)
+//@   ensures copy_failed_not_buffered: old(header.SSRC) == info.SSRC && callres("n.packetFactory.NewPacket", 1) != nil ==> calls("Add") == 0
 //@   ensures buffered_once: old(header.SSRC) == info.SSRC && callres("n.packetFactory.NewPacket", 1) == nil ==> calls("Add") == 1
 //@        && callarg("Add", 0) == stream.rtpBuffer && callarg("Add", 1) == callres("n.packetFactory.NewPacket", 0) && calls("writer.Write") == 1
-//@   ensures same_packet: calls("writer.Write") == 1 ==> callarg("writer.Write", 0) == header && callarg("writer.Write", 1) == payload && callarg("writer.Write", 2) == attributes
+//@   ensures same_packet: callarg("writer.Write", 0) == header && callarg("writer.Write", 1) == payload && callarg("writer.Write", 2) == attributes
 //@        && result0 == callres("writer.Write", 0) && result1 == callres("writer.Write", 1)
 //@   ensures buffer_under_lock: calls("Add") == 1 ==> atcall("Add", lockstate(stream.rtpBufferMutex)) == -1
 //@   ensures unlocked_when_forwarding: calls("writer.Write") == 1 ==> atcall("writer.Write", lockstate(stream.rtpBufferMutex)) != -1
